@@ -1,0 +1,165 @@
+//go:build verif
+
+package searchset
+
+// Machine-checked contracts for package searchset (read by /verif/govc; this
+// file contains comments only and is compiled only with build tag verif).
+//
+// okMR: a match range whose target side lies inside tn target tokens.
+// okGroup: a non-empty candidate, in target order, inside the target.
+//
+//@ spec okToks(t tokenizer.Tokens, txt string) bool = (forall j int :: 0 <= j && j < len(t) ==> okTok(t[j], txt)) && (forall j int, k int :: 0 <= j && j < k && k < len(t) ==> tokEnd(t[j]) <= t[k].Offset)
+//@ spec okNodes(s *SearchSet) bool = forall i int :: 0 <= i && i < len(s.nodes) ==> s.nodes[i] != nil && okRange(s.nodes[i].tokens, len(s.Tokens))
+//@ spec wfSS(s *SearchSet) bool = s != nil && okNodes(s) && okHash(s.Hashes, len(s.Tokens)) && nonNilToks(s.Tokens)
+//@ spec okMR(m *MatchRange, tn int) bool = m != nil && 0 <= m.TargetStart && m.TargetStart < m.TargetEnd && m.TargetEnd <= tn
+//@ spec okMRs(ms MatchRanges, tn int) bool = forall k int :: 0 <= k && k < len(ms) ==> okMR(ms[k], tn)
+//@ spec sortedT(ms MatchRanges) bool = forall i int, j int :: 0 <= i && i <= j && j < len(ms) ==> ms[i].TargetStart <= ms[j].TargetStart
+//@ spec okGroup(ms MatchRanges, tn int) bool = len(ms) > 0 && okMRs(ms, tn) && sortedT(ms)
+//@ spec okGroups(gs []MatchRanges, tn int) bool = forall g int :: 0 <= g && g < len(gs) ==> okGroup(gs[g], tn)
+//@
+//@ func (*SearchSet).GenerateNodeList
+//@   requires s != nil && len(s.Checksums) == len(s.ChecksumRanges) && s.nodes == nil && okRanges(s.ChecksumRanges, len(s.Tokens))
+//@   ensures okNodes(s)
+//@   ensures s.Tokens == old(s.Tokens) && s.Hashes == old(s.Hashes) && s.Checksums == old(s.Checksums) && s.ChecksumRanges == old(s.ChecksumRanges)
+//@   modifies s.nodes
+//@   loop 1 invariant 0 <= i && i <= len(s.Checksums) && okNodes(s) && (s.nodes == nil || fresh(s.nodes))
+//@   loop 1 invariant s.Tokens == old(s.Tokens) && s.Checksums == old(s.Checksums) && s.ChecksumRanges == old(s.ChecksumRanges)
+//@   props C17
+//@
+//@ func New
+//@   requires granularity >= 0
+//@   ensures fresh(result) && wfSS(result) && okToks(result.Tokens, s)
+//@   modifies nothing
+//@   props C17
+//@
+//@ func (MatchRanges).Len
+//@   ensures result == len(m)
+//@   modifies nothing
+//@   props C17
+//@ func (MatchRanges).Swap
+//@   requires 0 <= i && i < len(m) && 0 <= j && j < len(m)
+//@   ensures m[i] == old(m[j]) && m[j] == old(m[i])
+//@   ensures forall k int :: 0 <= k && k < len(m) && k != i && k != j ==> m[k] == old(m[k])
+//@   modifies elems(m)
+//@   props C17
+//@ spec mrLess(a *MatchRange, b *MatchRange) bool = a.TargetStart < b.TargetStart || (a.TargetStart == b.TargetStart && a.SrcStart < b.SrcStart)
+//@ func (MatchRanges).Less
+//@   requires 0 <= i && i < len(m) && 0 <= j && j < len(m) && m[i] != nil && m[j] != nil
+//@   ensures result == mrLess(m[i], m[j])
+//@   modifies nothing
+//@   props C17
+//@
+//@ func (MatchRanges).TargetRange
+//@   requires target != nil && nonNilToks(target.Tokens) && okGroup(m, len(target.Tokens))
+//@   ensures forall txt string :: okToks(target.Tokens, txt) ==> (0 <= start && start <= end && end <= len(txt))
+//@   modifies nothing
+//@   props C17 C13
+//@
+//@ func (MatchRanges).Size
+//@   requires forall k int :: 0 <= k && k < len(m) ==> m[k] != nil
+//@   modifies nothing
+//@   props C17
+//@
+//@ func equalTargetRange
+//@   inline
+//@
+//@ func coalesceMatchRanges
+//@   ghostparam tn int
+//@   requires len(matchedRanges) > 0 && okMRs(matchedRanges, tn) && sortedT(matchedRanges)
+//@   ensures okGroup(result, tn) && fresh(result)
+//@   modifies nothing
+//@   loop 1 invariant 1 <= i && len(coalesced) > 0 && fresh(coalesced) && okMRs(coalesced, tn) && sortedT(coalesced)
+//@   loop 1 invariant i <= len(matchedRanges) ==> (forall k int :: 0 <= k && k < len(coalesced) ==> coalesced[k].TargetStart <= matchedRanges[i-1].TargetStart)
+//@   props C17
+//@
+//@ func splitRanges
+//@   ghostparam tn int
+//@   requires len(matched) > 0 && okMRs(matched, tn) && sortedT(matched)
+//@   ensures len(result) > 0 && okGroups(result, tn) && fresh(result) && distinctGroups(result)
+//@   ensures forall g int :: 0 <= g && g < len(result) ==> fresh(result[g])
+//@   ensures groupOrder(result)
+//@   modifies nothing
+//@   loop 1 invariant 1 <= i && len(mr) > 0 && fresh(mr) && okMRs(mr, tn) && sortedT(mr) && (matchedRanges == nil || fresh(matchedRanges)) && okGroups(matchedRanges, tn)
+//@   loop 1 invariant distinctGroups(matchedRanges) && (forall g int :: 0 <= g && g < len(matchedRanges) ==> fresh(matchedRanges[g]))
+//@   loop 1 invariant groupOrder(matchedRanges) && allBefore(matchedRanges, mr[0].TargetStart)
+//@   loop 1 invariant mr[len(mr)-1].TargetStart <= matched[i-1].TargetStart && (forall g int :: 0 <= g && g < len(matchedRanges) ==> ref(matchedRanges[g]) != ref(mr))
+//@   props C17
+//@
+//@ func untangleSourceRanges
+//@   ghostparam tn int
+//@   requires len(matched) > 0 && okMRs(matched, tn) && sortedT(matched)
+//@   ensures len(result) > 0 && okMRs(result, tn) && sortedT(result)
+//@   modifies nothing
+//@   loop 1 invariant 1 <= i && len(mr) > 0 && fresh(mr) && okMRs(mr, tn) && sortedT(mr)
+//@   loop 1 invariant i <= len(matched) ==> mr[len(mr)-1].TargetStart <= matched[i-1].TargetStart
+//@   loop 2 invariant 1 <= i && i < j && i + 1 < len(matched) && len(mr) > 0 && fresh(mr) && okMRs(mr, tn) && sortedT(mr) && mr[len(mr)-1].TargetStart <= matched[i-1].TargetStart
+//@   props C17
+//
+// crossSorted(a, n, b, from): every element of the first n groups of a
+// precedes (in target order) every element of the groups b[from:].
+//@ spec groupOrder(gs []MatchRanges) bool = forall g int, x int, h int, y int :: 0 <= g && g < h && h < len(gs) && 0 <= x && x < len(gs[g]) && 0 <= y && y < len(gs[h]) ==> gs[g][x].TargetStart <= gs[h][y].TargetStart
+//@ spec allBefore(gs []MatchRanges, v int) bool = forall g int, x int :: 0 <= g && g < len(gs) && 0 <= x && x < len(gs[g]) ==> gs[g][x].TargetStart <= v
+//@ spec distinctGroups(gs []MatchRanges) bool = forall g int, h int :: 0 <= g && g < h && h < len(gs) ==> ref(gs[g]) != ref(gs[h])
+//@ spec crossSorted(a []MatchRanges, b []MatchRanges, from int) bool = forall g int, x int, h int, y int :: 0 <= g && g < len(a) && 0 <= x && x < len(a[g]) && from <= h && h < len(b) && 0 <= y && y < len(b[h]) ==> a[g][x].TargetStart <= b[h][y].TargetStart
+//@
+//@ func extendsAny
+//@   requires forall i int :: 0 <= i && i < len(tr) ==> tr[i] != nil
+//@   requires forall g int :: 0 <= g && g < len(mr) ==> len(mr[g]) > 0 && mr[g][0] != nil && mr[g][len(mr[g])-1] != nil
+//@   modifies nothing
+//@   props C17
+//
+//@ func mergeConsecutiveRanges
+//@   ghostparam tn int
+//@   requires len(matched) > 0 && okGroups(matched, tn) && groupOrder(matched) && distinctGroups(matched)
+//@   ensures len(result) > 0 && okGroups(result, tn)
+//@   loop 1 invariant 1 <= i && len(mr) > 0 && fresh(mr) && okGroups(mr, tn)
+//@   loop 1 invariant forall h int :: i <= h && h < len(matched) ==> okGroup(matched[h], tn)
+//@   loop 1 invariant forall g int, h int :: 0 <= g && g < len(mr) && i <= h && h < len(matched) ==> ref(mr[g]) != ref(matched[h])
+//@   loop 1 invariant crossSorted(mr, matched, i) && distinctGroups(mr)
+//@   loop 1 invariant forall h int :: 0 <= h && h < len(matched) ==> same(matched[h], old(matched[h]))
+//@   loop 1 invariant forall h int, y int :: i <= h && h < len(matched) && 0 <= y && y < len(matched[h]) ==> matched[h][y] == old(matched[h][y])
+//@   loop 2 invariant 1 <= i && i < len(matched) && 1 <= j && len(mr) > 0 && fresh(mr) && okGroups(mr, tn)
+//@   loop 2 invariant forall h int :: i <= h && h < len(matched) ==> okGroup(matched[h], tn)
+//@   loop 2 invariant forall g int, h int :: 0 <= g && g < len(mr) && i <= h && h < len(matched) ==> ref(mr[g]) != ref(matched[h])
+//@   loop 2 invariant crossSorted(mr, matched, i) && distinctGroups(mr)
+//@   loop 2 invariant forall h int :: 0 <= h && h < len(matched) ==> same(matched[h], old(matched[h]))
+//@   loop 2 invariant forall h int, y int :: i <= h && h < len(matched) && 0 <= y && y < len(matched[h]) ==> matched[h][y] == old(matched[h][y])
+//@   loop 3 invariant 1 <= i && i < len(matched) && 1 <= j && j < len(matched[i]) && 0 <= k && k < len(mr[len(mr)-1]) && len(mr) > 0 && fresh(mr) && okGroups(mr, tn)
+//@   loop 3 invariant forall h int :: i <= h && h < len(matched) ==> okGroup(matched[h], tn)
+//@   loop 3 invariant forall g int, h int :: 0 <= g && g < len(mr) && i <= h && h < len(matched) ==> ref(mr[g]) != ref(matched[h])
+//@   loop 3 invariant crossSorted(mr, matched, i) && distinctGroups(mr)
+//@   loop 3 invariant forall h int :: 0 <= h && h < len(matched) ==> same(matched[h], old(matched[h]))
+//@   loop 3 invariant forall h int, y int :: i <= h && h < len(matched) && 0 <= y && y < len(matched[h]) ==> matched[h][y] == old(matched[h][y])
+//@   props C17
+//
+//@ // ASSUMED (not verified): targetMatchedRanges keeps pointers into slice
+//@ // elements in a map (`extended[i] = &possible[i]`), which is outside the
+//@ // subset of Go the verifier models. Its contract below is trusted: every
+//@ // range it returns was built from a target node and a source hash entry.
+//@ func targetMatchedRanges
+//@   trusted
+//@   requires wfSS(src) && wfSS(target)
+//@   ensures okMRs(result, len(target.Tokens))
+//@   ensures result == nil || fresh(result)
+//@   modifies nothing
+//@
+//@ func extern sort.Sort
+//@   trusted
+//@   ensures typeis(data, "MatchRanges") ==> (forall k int :: 0 <= k && k < len(unbox(data, "MatchRanges")) ==> (exists j int :: 0 <= j && j < len(unbox(data, "MatchRanges")) && unbox(data, "MatchRanges")[k] == old(unbox(data, "MatchRanges")[j])))
+//@   ensures typeis(data, "MatchRanges") ==> (forall x int, y int :: 0 <= x && x < y && y < len(unbox(data, "MatchRanges")) ==> !mrLess(unbox(data, "MatchRanges")[y], unbox(data, "MatchRanges")[x]))
+//@   modifies elems(unbox(data, "MatchRanges")) when typeis(data, "MatchRanges")
+//@
+//@ func getMatchedRanges
+//@   requires wfSS(src) && wfSS(target)
+//@   ensures result == nil || (len(result) > 0 && okGroups(result, len(target.Tokens)))
+//@   callghost untangleSourceRanges tn = len(target.Tokens)
+//@   callghost splitRanges tn = len(target.Tokens)
+//@   callghost mergeConsecutiveRanges tn = len(target.Tokens)
+//@   props C17
+//@
+//@ func FindPotentialMatches
+//@   requires wfSS(src) && wfSS(target)
+//@   ensures result == nil || okGroups(result, len(target.Tokens))
+//@   callghost coalesceMatchRanges tn = len(target.Tokens)
+//@   loop 1 invariant 0 <= i && len(matchedRanges) > 0 && okGroups(matchedRanges, len(target.Tokens))
+//@   props C17 C13
